@@ -367,7 +367,19 @@ pub fn exec_doc(k: &Doc, ctx: &mut Ctx) -> Verdict {
     }
     // reference fields: what the document states, per occurrence
     let fields: Option<Vec<(String, Value)>> = match (&k.fields, k.transport) {
-        (None, _) => None,
+        // a three-element array [num_cols, num_rows, data] states its fields positionally (the
+        // struct's sequence form); any other non-object document states nothing
+        (None, _) => match &k.top {
+            Val::Arr(a) if a.len() == 3 => {
+                let v: Vec<Option<Value>> = a.iter().map(to_value).collect();
+                if v.iter().all(|x| x.is_some()) {
+                    Some(vec![("num_cols".to_string(), v[0].clone().unwrap()), ("num_rows".to_string(), v[1].clone().unwrap()), ("data".to_string(), v[2].clone().unwrap())])
+                } else {
+                    None
+                }
+            }
+            _ => None,
+        },
         (Some(_), Transport::Value) => match serde_json::from_str::<Value>(&text) {
             Ok(Value::Object(m)) => Some(m.into_iter().collect()),
             _ => None,
@@ -469,6 +481,7 @@ fn doc_strategy() -> BoxedStrategy<Doc> {
                 4 => Just(10u8),           // dimensions whose product wraps to the data length
                 2 => Just(11u8),           // top level is not an object
                 3 => Just(12u8),           // both dimensions from the pool
+                3 => Just(13u8),           // sequence form [num_cols, num_rows, data] of the current values
             ];
             (Just((elem, c, r, tr, ws)), data, prop::collection::vec(mutation, 1..3), dim_pool(), dim_pool(), wrong_val(), any::<[u16; 4]>(), elem_val(elem))
         })
@@ -552,6 +565,10 @@ fn doc_strategy() -> BoxedStrategy<Doc> {
                         fields = vec![("num_cols".into(), Val::U(a)), ("num_rows".into(), Val::U(b)), ("data".into(), Val::Arr(vec![extra.clone(); n]))];
                     }
                     11 => top = Some(wrong.clone()),
+                    13 => {
+                        let get = |n: &str| fields.iter().find(|f| f.0 == n).map(|f| f.1.clone()).unwrap_or(Val::Null);
+                        top = Some(Val::Arr(vec![get("num_cols"), get("num_rows"), get("data")]));
+                    }
                     _ => {}
                 }
             }
@@ -575,7 +592,7 @@ impl Prop for C19 {
     type Case = Doc;
     const ID: &'static str = "C19";
     fn rule() -> &'static str {
-        "documents generated from a grammar: a consistent base document (dims 0..6, data of the right length, element type u32 / String / Option<u32>) with 1-2 mutations from {dimension from the pool 0, small, 2^32, 2^63, 2^64-1, 2^62+1, negative, fractional, exponent, > u64, string, null, bool, array, object; data length +-; wrong element type; data not an array; field dropped; field duplicated (also a second different data); unknown keys; exactly one zero dimension with empty data; dimension pairs whose product wraps to exactly the data length; non-object top level}, fields reordered, 3 whitespace styles, 4 transports; plus an exhaustive list of every subset / order of the three fields with fixed values. Oracle: never panics; Ok(t) => C01 shape invariant and there is an occurrence of each field in the document that t's dimensions / cells equal exactly (hence an accepted document cannot have overflowing, mismatching or one-zero dimensions); non-object documents are never accepted. Non-trivial = an object containing all three fields. Distinct = distinct case."
+        "documents generated from a grammar: a consistent base document (dims 0..6, data of the right length, element type u32 / String / Option<u32>) with 1-2 mutations from {dimension from the pool 0, small, 2^32, 2^63, 2^64-1, 2^62+1, negative, fractional, exponent, > u64, string, null, bool, array, object; data length +-; wrong element type; data not an array; field dropped; field duplicated (also a second different data); unknown keys; exactly one zero dimension with empty data; dimension pairs whose product wraps to exactly the data length; non-object top level}, fields reordered, 3 whitespace styles, 4 transports; plus an exhaustive list of every subset / order of the three fields with fixed values. Oracle: never panics; Ok(t) => C01 shape invariant and there is an occurrence of each field in the document that t's dimensions / cells equal exactly (hence an accepted document cannot have overflowing, mismatching or one-zero dimensions); non-object documents are never accepted, except that a three-element array is read as the positional form [num_cols, num_rows, data] and held to the same standard. Non-trivial = an object containing all three fields. Distinct = distinct case."
     }
     fn bound(_t: Tier) -> String {
         "exhaustive part: all ordered selections (with duplication up to 4 fields) from {num_cols, num_rows, data, unknown} x 6 dimension / data variants x 4 transports".into()
@@ -615,6 +632,10 @@ impl Prop for C19 {
                         emit(Doc { elem: DocElem::U32, fields: Some(f), top: Val::Null, ws: (code % 3) as u8, transport: tr });
                     }
                 }
+            }
+            for (vc, vr, vd) in &variants {
+                emit(Doc { elem: DocElem::U32, fields: None, top: Val::Arr(vec![vc.clone(), vr.clone(), vd.clone()]), ws: 1, transport: tr });
+                emit(Doc { elem: DocElem::U32, fields: None, top: Val::Arr(vec![vr.clone(), vc.clone(), vd.clone()]), ws: 0, transport: tr });
             }
             for top in [Val::Null, Val::Arr(vec![]), Val::U(3), Val::S("data".into()), Val::Arr(vec![Val::U(2), Val::U(2), Val::Arr(vec![Val::U(1), Val::U(2), Val::U(3), Val::U(4)])]), Val::Bool(false), Val::Raw("1.5".into())] {
                 emit(Doc { elem: DocElem::U32, fields: None, top, ws: 0, transport: tr });
